@@ -102,7 +102,7 @@ func partsExistWhenEmitted(ti *mon.TraceIndex, rec string) []mon.Problem {
 func c19(args []string) {
 	c := chk.New("C19", "exploration", args)
 	c.Build(false)
-	c.Rule("every bundled component is placed between sources and recorders / consuming tasks and compared with a reference function: FileCombinator and ParamCombinator with 1-4 ports and stream lengths 0..B+1 from independent upstreams (B in {1,3}) and 0..B from a shared upstream - the multiset of aligned tuples (i-th item of every out-port) must equal the Cartesian product, each once; IPSelectorSync with every predicate outcome pattern over up to 6 aligned tuples; FileSplitter over files of 0..12 lines (with and without trailing newline) x 1..5 lines per split - parts concatenate back to the input, no part longer than the limit; Concatenator (single upstream: exact arrival order; fan-in: arrival order as recorded; GroupByTag) - output == every input's content plus newline once in arrival order; FileSource / ParamSource / FileToParamsReader (incl. last line without newline, empty lines) / CommandToParams - emitted == given / read, in order; FileGlobber - emitted == an independent matcher over a generated directory tree, per pattern in lexical order; the recorders stat every item on reception: what a file-emitting component hands downstream must exist at that moment (FileSplitter parts included); Concatenator with GroupByTag over a stream mixing tagged and untagged files; FileSplitter history: one file split in a first run, then that file plus unsplit ones in a second run. distinct_nontrivial = distinct (component, shape) cases whose comparison was made on >= 1 emitted item or an empty expectation")
+	c.Rule("every bundled component is placed between sources and recorders / consuming tasks and compared with a reference function: FileCombinator and ParamCombinator with 1-4 ports and stream lengths 0..B+1 from independent upstreams (B in {1,3}) and 0..B from a shared upstream - the multiset of aligned tuples (i-th item of every out-port) must equal the Cartesian product, each once; IPSelectorSync with every predicate outcome pattern over up to 6 aligned tuples; FileSplitter over files of 0..12 lines (some lines 5 000 and 20 000 bytes long, percent signs and tabs in the text) (with and without trailing newline) x 1..5 lines per split - parts concatenate back to the input, no part longer than the limit; Concatenator (single upstream: exact arrival order; fan-in: arrival order as recorded; GroupByTag) - output == every input's content plus newline once in arrival order; FileSource / ParamSource / FileToParamsReader (incl. last line without newline, empty lines) / CommandToParams - emitted == given / read, in order; FileGlobber - emitted == an independent matcher over a generated directory tree, per pattern in lexical order; the recorders stat every item on reception: what a file-emitting component hands downstream must exist at that moment (FileSplitter parts included); Concatenator with GroupByTag over a stream mixing tagged and untagged files; FileSplitter history: one file split in a first run, then that file plus unsplit ones in a second run. distinct_nontrivial = distinct (component, shape) cases whose comparison was made on >= 1 emitted item or an empty expectation")
 	c.Assume("unequal closing of IPSelectorSync inputs is a documented failure and is not generated", "a trailing empty part after an exact multiple of the line limit is legal")
 	rng := c.Rand("c19")
 	var jobs []*c19Job
@@ -275,6 +275,14 @@ func c19(args []string) {
 				var sb strings.Builder
 				for i := 0; i < nl; i++ {
 					fmt.Fprintf(&sb, "line %d of %d", i, nl)
+					switch {
+					case i == 1 && (nl+per)%3 == 0:
+						sb.WriteString(" " + strings.Repeat("L", 5000)) // a line longer than a 4 KiB read buffer
+					case i == 2 && nl%4 == 0:
+						sb.WriteString(" " + strings.Repeat("M", 20000))
+					case i%5 == 3:
+						sb.WriteString(" 100% of %s\t%d tabs\tand percent signs")
+					}
 					if i < nl-1 || trailing {
 						sb.WriteString("\n")
 					}
@@ -373,6 +381,9 @@ func c19(args []string) {
 						f := fmt.Sprintf("c%d_%d.txt", u, i)
 						src.Files = append(src.Files, f)
 						s.Sources[f] = fmt.Sprintf("content of %s\nsecond line", f)
+						if i%3 == 1 {
+							s.Sources[f] += " 97% done, %s %d %v\ttab" // contents are data, not format strings
+						}
 					}
 					s.Procs = append(s.Procs, src)
 					s.Conns = append(s.Conns, &spec.Conn{From: src.Name + ".out", To: "RIN.in"})
